@@ -155,9 +155,13 @@ func (mo *monitor) protectClosure(repo, digest string) {
 			return
 		}
 		mo.protect[key("m", repo, d)] = out.Data
-		blobs, mans, _, typed, ok := model.Refs(out.MediaType, out.Data)
+		blobs, mans, subject, typed, ok := model.Refs(out.MediaType, out.Data)
 		if !typed || !ok {
 			return
+		}
+		if subject != "" {
+			// a subject is a reference like any other
+			mans = append(append([]string{}, mans...), subject)
 		}
 		for _, b := range blobs {
 			bo := mo.env.Exec(&model.Op{Kind: "GetBlob", Repo: repo, Digest: b})
@@ -238,6 +242,18 @@ func (mo *monitor) note(op *model.Op, out *model.Outcome) {
 			mo.observeTag(op.Repo, op.Tag, model.Digest(op.Data), op.Data, "PushManifest")
 		}
 	}
+	if mo.what == "immutable-tags" {
+		switch op.Kind {
+		case "PushBlob", "Upload", "MountBlob", "PushManifest":
+			// content that arrives after a tag was bound and that the tag (through what is present by
+			// now) references is referenced content from here on
+			for k, o := range mo.tags {
+				if p := strings.Split(k, "\x00"); p[0] == op.Repo {
+					mo.protectClosure(p[0], o.digest)
+				}
+			}
+		}
+	}
 	if mo.what != "immutable-wrapper" {
 		return
 	}
@@ -285,6 +301,11 @@ func immutableHistory(run *evid.Run, h int, wrapper bool) {
 		// a tagged index whose first entry is something the registry cannot read as what the index says it is
 		scripted = u.LyingChildOps(rng, u.Repos[rng.IntN(len(u.Repos))], "lying")
 		run.Count(what+"/lying_child_prefixes", 1)
+	}
+	if h%8 == 3 && !wrapper {
+		// a tagged manifest whose subject arrives later, untagged, bringing its own references along
+		scripted = u.LateSubjectOps(rng, u.Repos[rng.IntN(len(u.Repos))], "early")
+		run.Count(what+"/late_subject_prefixes", 1)
 	}
 	for i := 0; i < 40+len(scripted); i++ {
 		var op *model.Op
@@ -687,7 +708,7 @@ func main() {
 	run.SetRule("cases: histories of all Interface methods (a) through ReadOnly over a populated registry, (b) through Immutable, (c) on ocimem with ImmutableTags, the latter two with extra operations aimed at observed tags and at what they reference; after EVERY call the monitor re-resolves every tag it has observed and re-reads everything it knows to be present/protected; (d) concurrent rounds of 8–16 goroutines on ocimem ImmutableTags under the race detector. " +
 		"distinct_nontrivial = distinct (mode, method, outcome class) + concurrent configurations; trivial = none.")
 	run.Assume("descriptors inside generated manifests state the media type the child was first pushed with; a subject is not counted among what must remain retrievable (it may dangle)")
-	run.Assume("in immutable-tags mode the protected set of a tag is what it transitively referenced AND was present when the tag was first observed")
+	run.Assume("in immutable-tags mode the protected set of a tag is what it transitively references (entries, config, layers and subjects, followed through manifests that are present) AND is present: when the tag is first observed, and again after every successful push into its repository")
 
 	n := run.N(800, 20000)
 	for h := 0; h < n; h++ {
